@@ -421,9 +421,12 @@ inductive Sql where
   | release (n : Nat)
 deriving DecidableEq, Repr, Inhabited
 
-/-- write `d` as the rows of the held connection (and of everybody under AUTOCOMMIT) -/
+/-- write `d` as the rows of the held connection — and of everybody under driver-level
+    AUTOCOMMIT, unless SQL has opened a transaction: in autocommit mode a SAVEPOINT starts a
+    transaction that lasts until the outermost savepoint is released or COMMIT / ROLLBACK -/
 def DB.write (db : DB) (d : Data) : DB :=
-  if db.raw.autocommit then { db with raw := { db.raw with working := d }, committed := d }
+  if db.raw.autocommit && db.raw.saves.isEmpty then
+    { db with raw := { db.raw with working := d }, committed := d }
   else { db with raw := { db.raw with working := d } }
 
 def DB.apply (db : DB) : Sql → Option DB × Res
@@ -440,7 +443,10 @@ def DB.apply (db : DB) : Sql → Option DB × Res
     | none => (none, .operational)
   | .release n =>
     match db.raw.release n with
-    | some r => (some { db with raw := r }, .ok)
+    | some r =>
+      -- under driver-level autocommit the RELEASE of the outermost savepoint commits
+      (some (if db.raw.autocommit && r.saves.isEmpty then { db with raw := r, committed := r.working }
+             else { db with raw := r }), .ok)
     | none => (none, .operational)
 
 /-- `_handle_dbapi_exception` for a dbapi.Error:
